@@ -50,9 +50,18 @@ func genWithRefusals(t *rapid.T) vh.ShimCase {
 		nb := rapid.IntRange(1, 5).Draw(t, "episodeN")
 		for b := 0; b < nb; b++ {
 			l := fmt.Sprintf("ep%d", b)
-			k := rapid.SampledFrom([]string{"addkey", "addcert", "addhard", "addhard", "remove", "remove", "removeall", "list", "signers", "sign", "lock", "close"}).Draw(t, l)
+			k := rapid.SampledFrom([]string{"addkey", "addcert", "addhard", "addhard", "remove", "remove", "removeall", "list", "signers", "sign", "lock", "close", "rawunlock", "rawunlock"}).Draw(t, l)
 			op := vh.Op{Kind: k, Cert: -1}
 			switch k {
+			case "rawunlock":
+				// a raw unlock request relayed by Forward which the underlying agent refuses (a passphrase
+				// no lock of any history uses; or the agent is not locked at all): nothing changes anywhere
+				code := byte(vh.CodeUnlock)
+				pass := rapid.SampledFrom([]string{"never a lock passphrase", "never-a-lock-passphrase\n", "episodE!"}).Draw(t, l+"RawPass")
+				op = vh.Op{Kind: "forward", Cert: -1, Body: append([]byte{code, 0, 0, 0, byte(len(pass))}, pass...)}
+				if rapid.IntRange(0, 3).Draw(t, l+"RawShort") == 0 {
+					op.Body = []byte{code} // malformed: refused as well
+				}
 			case "addkey":
 				op.Key = rapid.SampledFrom(vh.SSHKeyNames).Draw(t, l+"Key")
 			case "addcert", "addhard":
@@ -74,6 +83,13 @@ func genWithRefusals(t *rapid.T) vh.ShimCase {
 		if rapid.IntRange(0, 5).Draw(t, "episodeLostLock") == 0 {
 			// the underlying agent loses its lock behind the shim's back; a wrong passphrase follows
 			ep = append(ep, vh.Op{Kind: "oobunlock", Cert: -1}, vh.Op{Kind: "unlock", Cert: -1, Pass: "not the passphrase"}, vh.Op{Kind: "list", Cert: -1})
+		}
+		if rapid.IntRange(0, 4).Draw(t, "episodeOtherFault") == 2 {
+			// a failure of ANOTHER request kind is pending while the right passphrase is given (a flaky
+			// listing, a refused removal): it belongs to whichever later operation issues that request
+			code := rapid.SampledFrom([]int{vh.CodeList, vh.CodeList, vh.CodeRemove, vh.CodeSign}).Draw(t, "episodeOtherFaultCode")
+			ep = append(ep, vh.Op{Kind: "plan", Cert: -1, Plan: []vh.FaultRule{{Index: -1, Code: code, Kind: "fail", Remaining: 1}}})
+			ep = append(ep, vh.Op{Kind: "unlock", Cert: -1, Pass: "episode"}, vh.Op{Kind: "plan", Cert: -1}, vh.Op{Kind: "list", Cert: -1}, vh.Op{Kind: "lock", Cert: -1, Pass: "episode"})
 		}
 		ep = append(ep, vh.Op{Kind: "unlock", Cert: -1, Pass: "episode"}, vh.Op{Kind: "list", Cert: -1}, vh.Op{Kind: "sign", Cert: 0})
 		at := rapid.IntRange(0, len(c.Ops)).Draw(t, "episodeAt")
@@ -101,7 +117,7 @@ func genWithRefusals(t *rapid.T) vh.ShimCase {
 	return c
 }
 
-const rule = "histories of 1..30 operations interleaving lock / unlock (right, wrong, empty, 300-byte and near-miss passphrases) / close with add, add-hardware-certificate, remove, remove-all, list, signers, sign and out-of-band keyring edits, starting from 0..6 underlying identities and hardware certificates; in a third of the histories the underlying agent refuses individual lock / unlock requests (fault plan on that request kind); in a quarter the underlying agent keeps listing its identities while locked; sometimes it loses its lock behind the shim's back and then refuses every unlock. Certificates are current or forever so time cannot interfere. Oracle: model with a locked flag: while locked, list = empty without error, every other listed operation errs, the keyring is unchanged (observed directly) and after the right passphrase the view equals the model's pre-lock view; wrong passphrase => error and still locked; unlock when unlocked => error; a refused lock / unlock leaves the behaviour unchanged (probed by the following operations). Non-trivial: at least one mutating operation attempted while locked and a later successful unlock."
+const rule = "histories of 1..30 operations interleaving lock / unlock (right, wrong, empty, 300-byte and near-miss passphrases) / close with add, add-hardware-certificate, remove, remove-all, list, signers, sign and out-of-band keyring edits, starting from 0..6 underlying identities and hardware certificates; in a third of the histories the underlying agent refuses individual lock / unlock requests (fault plan on that request kind); in a fifth of the lock episodes a failure of another request kind (list, remove, sign) is pending while the right passphrase is given; in a quarter the underlying agent keeps listing its identities while locked; sometimes it loses its lock behind the shim's back and then refuses every unlock. Inside the lock episodes raw unlock requests that the underlying agent refuses (a passphrase no lock uses, malformed) are also relayed through Forward: a refused request changes nothing. Certificates are current or forever so time cannot interfere. Oracle: model with a locked flag: while locked, list = empty without error, every other listed operation errs, the keyring is unchanged (observed directly) and after the right passphrase the view equals the model's pre-lock view; wrong passphrase => error and still locked; unlock when unlocked => error; a refused lock / unlock leaves the behaviour unchanged (probed by the following operations). Non-trivial: at least one mutating operation attempted while locked and a later successful unlock."
 
 // TestC08Slow: the same histories with an underlying agent that takes seconds to answer the first
 // lock, unlock, list or sign request (a passphrase prompt, a token waiting for a touch). Slowness is
